@@ -103,7 +103,7 @@ def materialise(case):
     raise ValueError(g)
 
 
-def run_case(case, rec, ssj=None, views=None):
+def run_case(case, rec, ssj=None, views=None, decide=None):
     ssj = ssj or env.load()
     call = materialise(case)
     measure = T.JOIN_MEASURE[call['api']]
@@ -122,7 +122,8 @@ def run_case(case, rec, ssj=None, views=None):
         rec.add('raised', '%s: %s' % (type(e).__name__, str(e)[:80]))
         return None
     view.call = call
-    stats = oracle.check_set_join(df, call, measure, rec, DECIDE, view=view, case=case)
+    stats = oracle.check_set_join(df, call, measure, rec, decide or DECIDE, view=view, case=case)
+    oracle_ids = None
     for k, v in stats.items():
         rec.count(k, v)
     return stats
